@@ -224,10 +224,13 @@ func (w *W) runCase(f *Family, idx int) {
 	f.Run(w, idx)
 }
 
-// panicOrigin returns the first frame after the panic call that is not in the Go runtime.
+// panicOrigin walks the frames between the panic call and the first harness frame. It returns
+// the first non-runtime frame and, if any frame in that span lies in the library, that frame
+// instead (a contract helper such as openacid/must may sit between the library and the panic).
 func panicOrigin(stack string) string {
 	lines := strings.Split(stack, "\n")
 	seenPanic := false
+	first := ""
 	for i := 0; i+1 < len(lines); i++ {
 		l := lines[i]
 		if strings.HasPrefix(l, "panic(") {
@@ -240,9 +243,21 @@ func panicOrigin(stack string) string {
 		if strings.HasPrefix(l, "runtime.") || strings.HasPrefix(l, "runtime/") {
 			continue
 		}
-		return strings.TrimSpace(l) + " @ " + strings.TrimSpace(lines[i+1])
+		fr := strings.TrimSpace(l) + " @ " + strings.TrimSpace(lines[i+1])
+		if strings.HasPrefix(l, "verif/") {
+			if first == "" {
+				first = fr
+			}
+			return first
+		}
+		if strings.Contains(l, "github.com/openacid/low") {
+			return fr
+		}
+		if first == "" {
+			first = fr
+		}
 	}
-	return ""
+	return first
 }
 
 func trimStack(st string) string {
